@@ -32,4 +32,9 @@ def run(check: Check, repo: Repo, tier: str) -> None:
     X.memo_key_cover(check, repo)
     X.serial(check, repo)
     X.key_order(check, repo)
+    em = repo.package_modules('execution')
+    X.zip_align(check, repo, em)
+    X.handler_nulls(check, repo, em)
+    X.await_guard(check, repo, em)
+    X.cancel_settle(check, repo, [repo.mod('pyutils.gather_with_cancel')], floor=1)
     check.floor("KEY-ORDER", 6, "stores / gathers in the concurrent completion functions")
